@@ -72,10 +72,27 @@ func TestCheck(t *testing.T) {
 	runs = append(runs, run{scenario("sqlite", "nack", "ext", false, []time.Duration{sec}), sb})
 	if r.Thorough() {
 		runs = append(runs, run{scenario("sqlite", "ext", "ack", true, []time.Duration{sec}), 2})
+		runs = append(runs, run{scenario("sqlite", "dead", "nack", true, []time.Duration{sec}), 2})
 		three := scenario("memory", "nack", "ack", false, []time.Duration{sec})
 		three.Name = "memory-3consumers"
 		three.Threads = append(three.Threads, qsched.Thread{Name: "c3", Steps: []qsched.Step{deq(2), own("ack")}})
 		runs = append(runs, run{three, -1})
+		// batch dequeues racing with single ones and a batch ack
+		b := scenario("memory", "ack", "nack", true, []time.Duration{sec})
+		b.Name = "memory-batch2"
+		b.Setup = append(b.Setup, qmodel.Op{Kind: "enq", Envs: []qmodel.EnvSpec{env("c")}})
+		b.Threads[0].Steps = []qsched.Step{deq(2), {Op: qmodel.Op{Kind: "ackb", Leases: []string{"own", "own2"}}}}
+		runs = append(runs, run{b, -1})
+		bs := scenario("sqlite", "ack", "nack", false, []time.Duration{sec})
+		bs.Name = "sqlite-batch2"
+		bs.Setup = append(bs.Setup, qmodel.Op{Kind: "enq", Envs: []qmodel.EnvSpec{env("c")}})
+		bs.Threads[0].Steps = []qsched.Step{deq(2), {Op: qmodel.Op{Kind: "nackb", Leases: []string{"own", "own2"}}}}
+		runs = append(runs, run{bs, 2})
+		// three clock steps: expiry, re-lease, second expiry
+		cl := scenario("memory", "ext", "nack", false, []time.Duration{sec, sec, sec})
+		cl.Name = "memory-3ticks"
+		cl.Threads[0].Steps = append(cl.Threads[0].Steps, deq(1))
+		runs = append(runs, run{cl, 5})
 	}
 	budget := runner.Pick(r, 60*time.Second, 12*time.Minute) / time.Duration(len(runs))
 	for _, ru := range runs {
